@@ -204,6 +204,7 @@ pub fn c09(a: &Args, rep: &mut Report, out_dir: &std::path::Path) {
     rep.count("distinct_cell_start_orders", orders.len() as u64);
     if leg.is_empty() || leg == "norayon" {
         history_c09(a, rep);
+        sequence_c09(a, rep);
     }
     let legdir = out_dir.join("evidence").join("legs");
     let _ = std::fs::create_dir_all(&legdir);
@@ -342,6 +343,199 @@ pub fn history_c09(a: &Args, rep: &mut Report) {
         }
         rep.count("history_inputs", 1);
         rep.count("history_variants", vars.len() as u64);
+    });
+}
+
+// ------------------------------------------------------------------------------------------------
+// call-sequence independence: what a public call returns must depend on the object's STATE (generators, box, mask, with or
+// without faces), not on which other public calls were made on the object (or on an object it was cloned / converted from)
+// before - lazily filled caches, state carried through `with_faces()` / `discard_faces()` / `Clone`.
+// Reference = the same call on a freshly built object that was brought into the same state by the shortest route.
+
+fn integrator_digest<M: meshless_voronoi::ConvexCellMarker + 'static>(vi: &meshless_voronoi::VoronoiIntegrator<M>, n: usize) -> u64 {
+    let mut d = Digest::new();
+    for x in vi.compute_cell_integrals::<VolumeCentroidIntegral>() {
+        d.f64(x.volume);
+        d.v3(x.centroid);
+    }
+    for f in vi.compute_face_integrals::<AreaCentroidIntegral>() {
+        d.usize(f.left());
+        d.opt_usize(f.right());
+        d.opt_v3(f.shift());
+        d.f64(f.integral().area);
+        d.v3(f.integral().centroid);
+    }
+    for f in vi.compute_face_integrals_sym::<AreaCentroidIntegral>() {
+        d.usize(f.left());
+        d.opt_usize(f.right());
+        d.opt_v3(f.shift());
+        d.f64(f.integral().area);
+        d.v3(f.integral().centroid);
+    }
+    for x in vi.compute_cell_integrals_with_data::<(), VolumeIntegral>(&vec![(); n]) {
+        d.f64(x.volume);
+    }
+    d.usize(digest_voronoi(&Voronoi::from(vi)).0 as usize);
+    d.0
+}
+
+fn cell_digest<M: meshless_voronoi::ConvexCellMarker + 'static>(cell: &meshless_voronoi::ConvexCell<M>, mask: &[bool]) -> u64 {
+    let mut d = Digest::new();
+    let x: VolumeCentroidIntegral = cell.compute_cell_integral(());
+    d.f64(x.volume);
+    d.v3(x.centroid);
+    for f in cell.compute_face_integrals::<(), AreaCentroidIntegral>(()) {
+        d.usize(f.left());
+        d.opt_usize(f.right());
+        d.opt_v3(f.shift());
+        d.f64(f.integral().area);
+        d.v3(f.integral().centroid);
+    }
+    for f in cell.compute_face_integrals_sym::<(), AreaIntegral>((), mask) {
+        d.usize(f.left());
+        d.opt_usize(f.right());
+        d.f64(f.integral().area);
+    }
+    d.0
+}
+
+pub fn sequence_c09(a: &Args, rep: &mut Report) {
+    let ninputs = if a.tier == "thorough" { 600 } else { 80 };
+    let ninputs = ((ninputs as f64) * a.scale).ceil() as u64;
+    run_parallel(rep, ninputs, budget(a, 100., 900.), |k, rep| {
+        let o = GenOpts {
+            sizes: &[2, 5, 13, 27, 64, 150],
+            families: &["uniform", "uniform", "lattice", "mildcluster", "gradient", "star"],
+            dims: &[3],
+            mild_box: true,
+            ..Default::default()
+        };
+        let mut c = gen_case("C09sequence", "any", a.seed, k, &o);
+        let mut r = Rng::stream("C09sequence", &[a.seed, k]);
+        if k % 2 == 1 {
+            c.mask = Some(gen_mask(c.n(), &mut r));
+        }
+        let n = c.n();
+        let mask: Vec<bool> = c.mask.clone().unwrap_or_else(|| vec![true; n]);
+        let res = guarded(|| {
+            let mut bad: Vec<String> = vec![];
+            // references from fresh objects
+            let r_wo = integrator_digest(&build_integrator(&c), n);
+            let r_w = integrator_digest(&build_integrator(&c).with_faces(), n);
+            let fresh = build_integrator(&c);
+            let cr_wo: Vec<Option<u64>> = (0..n).map(|i| fresh.get_cell_at(i).map(|x| cell_digest(x, &mask))).collect();
+            let cr_w: Vec<Option<u64>> = (0..n).map(|i| fresh.get_cell_at(i).map(|x| cell_digest(&x.clone().with_faces(), &mask))).collect();
+            let mut calls = 0u64;
+            // (a) integrals first, then clone / convert, then the integrals of the new state
+            {
+                let vi = build_integrator(&c);
+                if integrator_digest(&vi, n) != r_wo {
+                    bad.push("a second freshly built integrator gives other integrals than the first".into());
+                }
+                if integrator_digest(&vi, n) != r_wo {
+                    bad.push("the second evaluation of the integrals on one integrator differs from the first".into());
+                }
+                let cl = vi.clone();
+                if integrator_digest(&cl, n) != r_wo {
+                    bad.push("integrals on a clone taken AFTER the integrals were evaluated differ from those of a fresh integrator".into());
+                }
+                let vf = cl.with_faces();
+                if integrator_digest(&vf, n) != r_w {
+                    bad.push("integrals on with_faces() of an integrator whose integrals were evaluated BEFORE the conversion differ from those of a fresh with_faces() integrator".into());
+                }
+                if integrator_digest(&vf, n) != r_w {
+                    bad.push("the second evaluation on the with-faces integrator differs".into());
+                }
+                let vf2 = vf.clone();
+                if integrator_digest(&vf2, n) != r_w {
+                    bad.push("integrals on a clone of an evaluated with-faces integrator differ".into());
+                }
+                // the original is still usable and unchanged
+                if integrator_digest(&vi, n) != r_wo {
+                    bad.push("integrals of the original integrator changed after its clone was converted and evaluated".into());
+                }
+                calls += 7;
+            }
+            // (b) per cell, a random walk over {evaluate, clone, with_faces, discard_faces}
+            {
+                let vi = build_integrator(&c);
+                let picks: Vec<usize> = (0..n).filter(|&i| vi.get_cell_at(i).is_some()).collect();
+                for &i in picks.iter().take(40) {
+                    let cell0 = vi.get_cell_at(i).unwrap();
+                    let (want_wo, want_w) = (cr_wo[i].unwrap(), cr_w[i].unwrap());
+                    let mut wo = Some(cell0.clone());
+                    let mut w: Option<meshless_voronoi::ConvexCell<meshless_voronoi::WithFaces>> = None;
+                    let mut trail = String::new();
+                    for _ in 0..(3 + r.below(6)) {
+                        match r.below(4) {
+                            0 => {
+                                // evaluate in the present state
+                                let (got, want) = match (&wo, &w) {
+                                    (Some(x), _) => (cell_digest(x, &mask), want_wo),
+                                    (_, Some(x)) => (cell_digest(x, &mask), want_w),
+                                    _ => unreachable!(),
+                                };
+                                trail.push('E');
+                                calls += 1;
+                                if got != want {
+                                    bad.push(format!("cell {i}: after the call sequence `{trail}` (E evaluate, C clone, W with_faces, D discard_faces) the integrals differ from those of a fresh cell in the same state"));
+                                    break;
+                                }
+                            }
+                            1 => {
+                                trail.push('C');
+                                if let Some(x) = &wo {
+                                    wo = Some(x.clone());
+                                }
+                                if let Some(x) = &w {
+                                    w = Some(x.clone());
+                                }
+                            }
+                            2 => {
+                                if let Some(x) = wo.take() {
+                                    trail.push('W');
+                                    w = Some(x.with_faces());
+                                }
+                            }
+                            _ => {
+                                if let Some(x) = w.take() {
+                                    trail.push('D');
+                                    wo = Some(x.discard_faces());
+                                }
+                            }
+                        }
+                    }
+                    // always end with an evaluation in both states
+                    let x = match (wo.take(), w.take()) {
+                        (Some(x), _) => x,
+                        (_, Some(x)) => x.discard_faces(),
+                        _ => unreachable!(),
+                    };
+                    calls += 2;
+                    if cell_digest(&x, &mask) != want_wo {
+                        bad.push(format!("cell {i}: after `{trail}` and back to the state without faces the integrals differ from those of a fresh cell"));
+                    }
+                    let y = x.with_faces();
+                    if cell_digest(&y, &mask) != want_w {
+                        bad.push(format!("cell {i}: after `{trail}` and with_faces() the integrals differ from those of a fresh cell with faces"));
+                    }
+                    if bad.len() > 3 {
+                        break;
+                    }
+                }
+            }
+            (bad, calls)
+        });
+        match res {
+            Err(p) => rep.violations.push(panic_violation("C09", &c, &p)),
+            Ok((bad, calls)) => {
+                rep.count("sequence_calls_compared", calls);
+                rep.count("sequence_inputs", 1);
+                if let Some(first) = bad.first() {
+                    rep.violations.push(Violation::new("C09", "c09.depends_on_call_sequence", format!("the result of a public call depends on the calls made on the object before: {first}"), Some(&c), json!({"all": bad})));
+                }
+            }
+        }
     });
 }
 
